@@ -87,7 +87,7 @@ class Translator:
     def coerce(self, val, ty):
         text, t = val
         if t == ty:
-            return text
+            return "(" + ", ".join(text) + ")" if isinstance(text, tuple) else text
         if t == "R" and ty == "E":
             return "(Ext.fin %s)" % text
         if t == "N" and ty == "R":
@@ -95,7 +95,7 @@ class Translator:
         if t == "I" and ty == "R" and text.lstrip("(-").rstrip(")").strip().isdigit():
             return text
         if isinstance(ty, tuple) and isinstance(t, tuple) and len(t) == len(ty):
-            raise Unsupported("tuple coercion")
+            return "(" + ", ".join(self.coerce((x, tx), tyx) for x, tx, tyx in zip(text, t, ty)) + ")"
         raise Unsupported("cannot use %s as %s" % (lean_ty(t), lean_ty(ty)))
 
     def unify(self, a, b):
@@ -310,6 +310,9 @@ class Translator:
             raise Unsupported("power %s" % ast.unparse(e))
         a, b = self.expr(e.left, env), self.expr(e.right, env)
         ta, tb = a[1], b[1]
+        if isinstance(ta, tuple) and tb == "R" and all(t == "R" for t in ta) and isinstance(op, (ast.Mult, ast.Div)):
+            sym = "*" if isinstance(op, ast.Mult) else "/"
+            return (tuple("(%s %s %s)" % (x, sym, b[0]) for x in a[0]), ta)       # an array times a scalar: elementwise
         if ta == "I" or tb == "I":
             if {ta, tb} <= {"I", "R"}:
                 def toint(v):
@@ -395,6 +398,8 @@ class Translator:
             if v[1] == "E" and short == "log":
                 return ("(Ext.log %s)" % v[0], "E")
             raise Unsupported("%s of %s" % (short, v[1]))
+        if short == "array" and len(args) == 1 and isinstance(args[0], (ast.List, ast.Tuple)):
+            return self.expr(args[0], env)        # np.array([a, b, ...]) of scalars: the tuple of its entries
         if short == "conj" and len(args) == 1:
             v = self.expr(args[0], env)
             if v[1] == "C":
@@ -947,6 +952,14 @@ RULE_SPECS = [
     for kind in ("Sphere", "Spheres", "Spheroid", "Cylinder", "Other")
 ]
 
+MIE_SPECS = [
+    # the coefficient sums of miescatlib (modelled by scaCSum / extCSum / asymmetrySum) enter as inputs
+    dict(cls="Mie", fn="raw_cross_sections", lean="Mie_raw_cross_sections", ret=("R", "R", "R", "R"), raises=True, isinstance={"scatterer": "Sphere"},
+         params=[("medium_wavevec", "k", "R"), ("miescatlib.cross_sections(albl[0], albl[1])", "sums", ("R", "R", "R")),
+                 ("miescatlib.asymmetry_parameter(albl[0], albl[1])", "gsum", "R")],
+         ignore_params=["scatterer", "medium_index", "illum_polarization"]),
+]
+
 MODEL_SPECS = [
     # the array reductions are inputs: N = data.size, the mean log noise level, the sum of squared scaled residuals
     dict(cls="Model", fn="_lnlike", lean="Model_lnlike", ret="R", identity_calls=["ensure_scalar"],
@@ -964,6 +977,7 @@ FILES = {
     "PyLens": ("holopy/scattering/theory/lens.py", ["HoloModel.CxExtra"], LENS_SPECS, "pyLensFailures"),
     "PyRule": ("holopy/scattering/interface.py", ["HoloModel.Cluster"], RULE_SPECS, "pyRuleFailures"),
     "PyModel": ("holopy/inference/model.py", ["HoloModel.Scalar"], MODEL_SPECS, "pyModelFailures"),
+    "PyMie": ("holopy/scattering/theory/mie.py", ["HoloModel.Scalar"], MIE_SPECS, "pyMieFailures"),
 }
 
 
